@@ -362,6 +362,17 @@ pub fn run_c13(rep: &mut Report, thorough: bool) {
             let sel: Vec<Vec<u8>> = (0..nc).map(|k| core[k * st + (k % st.max(1))].clone()).collect();
             cuts_stage(rep, &env, &format!("http-cuts-{}", tag), &sel, 16);
         }
+        // keep-alive: a second and third complete request on a connection whose earlier requests
+        // were answered
+        {
+            let nc = core.len() as u64;
+            sweep_conv(rep, &env, &format!("http-keep-alive-{}", tag), "core request, then every core request as second message, then a third (same connection) x {v4,v6}", nc * 6 * 2, |i| {
+                let d = unrank(i, &[nc, 6, 2]);
+                let first = core[(d[1] as usize * 7) % core.len()].clone();
+                let third = core[(d[1] as usize * 11 + 3) % core.len()].clone();
+                (Path { tcp: true, v6: d[2] == 1, ports: d[2] as usize }, vec![first, core[d[0] as usize].clone(), third])
+            });
+        }
         if thorough && env.cfg.self_ips.is_empty() {
             // two faults: every pair of single faults for three short requests
             let bases: Vec<Vec<u8>> = vec![b"GET / HTTP/1.1\r\n\r\n".to_vec(), b"PUT /a HTTP/1.0\nA:b\n\n".to_vec(), b"HEAD /x HTTP/1.1\r\nH: v\r\n\r\n".to_vec()];
@@ -636,6 +647,28 @@ pub fn run_c15(rep: &mut Report, thorough: bool) {
             &mut rep.sink,
         );
         rep.stage(&format!("stun-src-{}", tag), "4 source addresses per IP version (incl. IPv4-mapped and IPv4-compatible IPv6) x 3 request shapes", 24, t0);
+        // bytes after the message the STUN length field delimits are not attributes of the request
+        {
+            let big_attr = stun_attr(0x8022, &[b'x'; 252]);
+            let big = stun_magic(&big_attr, &ID12);
+            let mut tails: Vec<Vec<u8>> = vec![stun_attr(3, &[0, 0, 0, 2]), stun_attr(3, &[0, 0, 0, 6]), stun_magic(&[], &ID12), stun_attr(0x8022, b"abcd"), vec![0xff; 5], vec![0, 3, 0, 4, 0], vec![0, 3]];
+            for n in 1..=12usize {
+                tails.push(vec![0x00; n]);
+                tails.push((0..n).map(|k| [0u8, 3, 0, 4, 0, 0, 0, 2, 0, 3, 0, 4][k]).collect());
+            }
+            let nt = tails.len() as u64;
+            sweep_app(rep, &env, &format!("stun-trailing-{}", tag), "[>=256-byte Binding request] + trailing bytes (CHANGE-REQUEST-shaped, a second request, unknown attribute, garbage, every prefix length 1..12 of two patterns) x 4 paths", nt * 4, |i| {
+                let mut m = big.clone();
+                m.extend_from_slice(&tails[(i / 4) as usize]);
+                (paths[(i % 4) as usize], m)
+            });
+            sweep_conv(rep, &env, &format!("stun-trailing-second-{}", tag), "[>=256-byte Binding request] then [20-byte / 28-byte request + the same trailing byte strings] on one TCP connection x {v4,v6}", nt * 2 * 2, |i| {
+                let d = unrank(i, &[nt, 2, 2]);
+                let mut m = if d[1] == 0 { stun_magic(&[], &ID12) } else { stun_magic(&stun_attr(0x8022, b"abcd"), &ID12) };
+                m.extend_from_slice(&tails[d[0] as usize]);
+                (Path { tcp: true, v6: d[2] == 1, ports: 1 }, vec![big.clone(), m])
+            });
+        }
         // later messages on a TCP connection identified as STUN: every message-type word
         {
             let big = stun_magic(&stun_attr(0x8022, &[b'x'; 256]), &ID12);
@@ -739,24 +772,24 @@ pub fn run_c16(rep: &mut Report, thorough: bool) {
         );
         rep.stage(&format!("rpc-dport-{}", tag), "GETPORT / GETADDR / DUMP x all 65536 destination ports x {v4,v6}", total, t0);
         let t0 = std::time::Instant::now();
-        let d4 = [srv4(), srv4b(), Ip::V4([0, 0, 0, 0]), Ip::V4([255, 255, 255, 255]), Ip::V4([224, 0, 0, 1]), Ip::V4([1, 2, 3, 4])];
-        let d6 = [srv6(), srv6b(), Ip::parse("::"), Ip::parse("ff02::1"), Ip::parse("::ffff:1.2.3.4"), Ip::parse("fe80::1")];
+        let d4 = [srv4(), srv4b(), Ip::V4([0, 0, 0, 0]), Ip::V4([255, 255, 255, 255]), Ip::V4([224, 0, 0, 1]), Ip::V4([1, 2, 3, 4]), Ip::V4([127, 0, 0, 1]), Ip::V4([0, 0, 0, 1])];
+        let d6 = [srv6(), srv6b(), Ip::parse("::"), Ip::parse("ff02::1"), Ip::parse("::ffff:1.2.3.4"), Ip::parse("fe80::1"), Ip::parse("::1"), Ip::parse("::10.0.0.1")];
         let opts = RunOpts::new(&format!("rpc-dst-{}", tag));
         engine::run(
             &env.cfg,
-            12 * 6,
+            16 * 6,
             &opts,
             |i| {
-                let v6 = i % 12 >= 6;
+                let v6 = i % 16 >= 8;
                 let mut f = flow(v6, 40000, 111);
-                f.sip = if v6 { d6[(i % 6) as usize] } else { d4[(i % 6) as usize] };
-                let (v, pr) = calls[(i / 12) as usize];
+                f.sip = if v6 { d6[(i % 8) as usize] } else { d4[(i % 8) as usize] };
+                let (v, pr) = calls[(i / 16) as usize];
                 vec![Cmd::Frame(f.udp(&apprpc::build_call(0x61626364, 2, 100000, v, pr, &[], &[])))]
             },
             |_it: &Item, _s: &mut Sink| {},
             &mut rep.sink,
         );
-        rep.stage(&format!("rpc-dst-{}", tag), "6 destination addresses per IP version x 6 portmapper calls", 72, t0);
+        rep.stage(&format!("rpc-dst-{}", tag), "8 destination addresses per IP version (incl. loopback, IPv4-mapped and IPv4-compatible IPv6) x 6 portmapper calls", 96, t0);
         // replies of every size the responder can produce: destination addresses whose printed
         // form has every length (IPv6 up to 39 characters), x destination ports with 1..5 digits,
         // over UDP and over TCP (fresh validated flow; cookies learned first)
